@@ -12,7 +12,7 @@ def check_walk(op, base, exchanges, yields, outcome, script_len):
     Returns list of (sig, message); empty = every safety clause held."""
     bad = []
     yi, cur, prev_y, ended, why_ended = 0, tuple(base), None, False, None
-    if len(exchanges) > script_len + 1:
+    if len([e for e in exchanges if e[1] != "DROPPED"]) > script_len + 1:
         bad.append(("no-termination", "%d requests for a script of %d replies (+1 endOfMibView): the walk does not end" % (len(exchanges), script_len)))
     for k, (req_oid, reply) in enumerate(exchanges):
         if ended:
@@ -22,6 +22,9 @@ def check_walk(op, base, exchanges, yields, outcome, script_len):
             bad.append(("wrong-continuation", "request %d asks for %s, the last accepted OID is %s" % (
                 k, ".".join(map(str, req_oid)), ".".join(map(str, cur)))))
             break
+        if reply == "DROPPED":
+            # this datagram was lost and the caller retried next(): nothing changes, the retry must ask for the same OID
+            continue
         if op == "getnext" and len(reply) != 1:
             # statement silent on multi-varbind GetNext replies: any outcome, but nothing may be yielded from it
             ended, why_ended = True, "GetNext reply with %d varbinds" % len(reply)
